@@ -81,6 +81,8 @@ inductive Ev where
   | headers (lines : List Str)    -- `_ProxyAdapter.headers_received`
   | finish                        -- `_ProxyAdapter.finish`
   | close                         -- `_ProxyAdapter.on_connection_close`
+  | finishRaises                  -- `_ProxyAdapter.finish` whose `delegate.finish()` raises: `_cleanup()` is skipped (the
+                                  -- connection is then closed by `_server_request_loop`: the last event of a real trace)
   deriving Repr, BEq, DecidableEq
 
 inductive Obs where
@@ -96,6 +98,7 @@ def step (valid : Str → Bool) (c : Ctx) : Ev → Ctx × Obs
     | .ok h => let c' := applyX valid c h; (c', .request c'.remoteIp c'.protocol)
   | .finish => (unapplyX c, .none)
   | .close => (unapplyX c, .none)
+  | .finishRaises => (c, .none)
 
 def run (valid : Str → Bool) (c : Ctx) : List Ev → Ctx × List Obs
   | [] => (c, [])
